@@ -186,9 +186,19 @@ def gen_stmt(ctx, rnd, labels, near, depth=0):
         chunks = []
         for _ in range(rnd.randrange(1, 4)):
             if rnd.random() < 0.3:
-                chunks.append(("n", apm.num(rnd.randrange(256), rnd.choice([None, "d"]))))
+                if rnd.random() < 0.35 and not ctx.in_repeat:
+                    # a code given by a constant that may be defined further down: the string cannot be evaluated when it is met,
+                    # its size must still be the number of bytes it will have
+                    nm = ctx.fresh("chc")
+                    v = rnd.randrange(256)
+                    ctx.consts[nm] = v
+                    ctx.const_order.append(nm)
+                    ctx.pending_defs.append(apm.assign(nm, apm.num(v, rnd.choice([None, "d"]))))
+                    chunks.append(("n", ("sym", nm)))
+                else:
+                    chunks.append(("n", apm.num(rnd.randrange(256), rnd.choice([None, "d"]))))
             else:
-                chunks.append(("s", rnd.choice(["hello", "A", "text with spaces", "ПРИВЕТ", "", "x;y", "tab\there", "q'uote"])))
+                chunks.append(("s", rnd.choice(["hello", "A", "text with spaces", "ПРИВЕТ", "", "x;y", "tab\there", "q'uote", "Жук", "я"])))
         st = apm.string(rnd.choice([".ascii", ".asciz"]), chunks)
         out.append(st)
         ctx.maybe_odd = True
@@ -277,6 +287,11 @@ def gen_file(rnd, fileno, name, opts, shared_exports=(), nstmt=None):
     # alias definitions: anywhere, in any order relative to each other and to the labels they mention (chains in reverse order too)
     for d in (reversed(ctx.alias_defs) if rnd.random() < 0.5 else ctx.alias_defs):
         stmts.insert(rnd.choice([0, rnd.randrange(len(stmts) + 1), len(stmts)]), d)
+    if exported and opts.get("extern_all", True) and rnd.random() < 0.2:
+        # the same exports through '.extern all' somewhere in the file (it exports what is defined before AND after it)
+        for st in stmts:
+            st.labels = [(n, "label" if kind == "extern" else kind) for n, kind in st.labels]
+        stmts.insert(rnd.choice([0, 0, rnd.randrange(len(stmts) + 1), len(stmts)]), apm.extern("all"))
     ctx.labels = label_names
     ctx.exports = exported
     return apm.SrcFile(name, stmts), ctx
@@ -323,7 +338,7 @@ def gen_program(rnd, nfiles=None, opts=None, base=None, tries=30, charset="bk", 
             pos = rnd.randrange(len(host.stmts) + 1)
             host.stmts[pos:pos] = [apm.insert_file("blob9.bin"), apm.simple(".even")]
         nf = len(files)
-        if opts.get("shadow", True) and nf >= 2 and rnd.random() < 0.25:
+        if opts.get("shadow", True) and nf >= 2 and rnd.random() < 0.25 and not any(st.k == "extern" for f in files for st in f.stmts):
             # a name exported by one file (a label, or a constant whose value is final at once) and defined privately, further down,
             # in another file that uses it before: the file's own definition is the one its references mean
             i = rnd.randrange(nf)
